@@ -7,6 +7,9 @@ from objgen import ObjGen, RealSource, rbytes
 OPS = ['q', 'Q', 'cm', 'BT', 'ET', 'Tf', 'Tj', 'TJ', "'", '"', 'T*', 'Td', 'TD', 're', 'f', 'f*', 'S', 's', 'n', 'W', 'W*',
        'Do', 'gs', 'rg', 'RG', 'k', 'K', 'm', 'l', 'c', 'h', 'B', 'B*', 'b', 'b*', 'BDC', 'BMC', 'EMC', 'd0', 'sh', 'ri']
 ALPHA = 'abcdefghijklmnopqrstuvwxyzABCDEFGHIJKLMNOPQRSTUVWXYZ*\'"'
+# container nesting limit of the parser (reader::MAX_NESTING, regenerated into coq/Gen/Lex.v by the translator)
+_m = re.search(r'Definition MAX_NESTING : N := (\d+)%N\.', open(os.path.join(vlib.ROOT, 'coq', 'Gen', 'Lex.v')).read())
+MAX_NESTING = int(_m.group(1)) if _m else 16
 
 
 KEYWORDS = ('true', 'false', 'null')
@@ -47,7 +50,7 @@ def deep_operand(rng, k):
 def gen_known(rng, reals):
     """operations of the open known class C14-deep-nesting (see classify)"""
     g = ObjGen(rng, reals, allow_ref=False)
-    ops = [L('op', xb(roperator(rng, False)), deep_operand(rng, rng.choice([101, 102, 120])))]
+    ops = [L('op', xb(roperator(rng, False)), deep_operand(rng, rng.choice([MAX_NESTING + 1, MAX_NESTING + 2, MAX_NESTING + 24, 101])))]
     if rng.random() < 0.5:
         ops.insert(0, L('op', xb('q')))
     return g.finish(L('enc', L('ops', *ops), 'wf'))
@@ -59,7 +62,7 @@ def gen_enc(rng, reals, wf):
     for _ in range(rng.choice([0, 1, 1, 2, 3, 6])):
         n = rng.choice([0, 0, 1, 1, 2, 3, 6])
         if wf and rng.random() < 0.03:
-            ops.append(L('op', xb(roperator(rng, False)), deep_operand(rng, rng.choice([98, 99, 100]))))
+            ops.append(L('op', xb(roperator(rng, False)), deep_operand(rng, rng.choice([MAX_NESTING - 2, MAX_NESTING - 1, MAX_NESTING]))))
             continue
         if wf:
             op = roperator(rng, n == 0)
@@ -183,6 +186,9 @@ def gen_dec(rng):
                                         b'9223372036854775807', b'-9223372036854775808', b'00012', b'[', b']', b'<<', b'(', b'\\',
                                         b'/A#', b'/A#G1', b'/#', b'/A#4', b'/A#4g', b'/#23#2f', b'<4 G>', b'(\\8\\400)', b'1.2.3', b'+-1', b'--1', b'.',
                                         b'[' * 100 + b']' * 100, b'[' * 101 + b']' * 101, b'[' * 99 + b'<<' + b'>>' + b']' * 99,
+                                        b'[' * MAX_NESTING + b']' * MAX_NESTING, b'[' * (MAX_NESTING + 1) + b']' * (MAX_NESTING + 1),
+                                        b'[' * (MAX_NESTING - 1) + b'<<' + b'>>' + b']' * (MAX_NESTING - 1),
+                                        b'<</K' * MAX_NESTING + b' 1' + b'>>' * MAX_NESTING, b'<</K' * (MAX_NESTING + 1) + b' 1' + b'>>' * (MAX_NESTING + 1),
                                         b'<</K' * 100 + b' 1' + b'>>' * 100, b'<</K' * 101 + b' 1' + b'>>' * 101]))
             op = rng.choice(['q', 'Q', 'Tj', 'TJ', 'cm', "'", '"', 'T*', 'f*', 'BI', 'BT', 'ET', 'true', 'nullx', 'x', 'ID', 'EI', 're'])
             sep = rng.choice([b' ', b'\n', b'\t', b'\r\n', b'  ', b'\x00', b'\x0c'])
@@ -643,7 +649,7 @@ def known_class_of(line):
             continue
         name = bytes.fromhex(items[1][1:])
         operands = items[2:]
-        if any(sx_nest(x) > 100 for x in operands):
+        if any(sx_nest(x) > MAX_NESTING for x in operands):
             return 'C14-deep-nesting'
     return None
 
@@ -691,7 +697,7 @@ MANIFEST = {
     'level_text': 'Machine-checked proof (Coq) that (1) the model of Content::decode applied to the model of Content::encode returns '
                   'the same operators with operands in normal form (integral real -> integer) for EVERY sequence of operations in '
                   'the domain (operators over the parser alphabet other than the keywords null/true/false; operands = direct objects of '
-                  'every kind nested up to MAX_BRACKET levels with arbitrary bytes in names, strings and keys; inline images in BI/ID/EI '
+                  'every kind nested up to MAX_NESTING levels with arbitrary bytes in names, strings and keys; inline images in BI/ID/EI '
                   'syntax with arbitrary sample bytes) outside one open known class (C14_rt), and (2) for EVERY byte string, what decode '
                   'returns, held as f32 and encoded again, decodes to the same operations up to "an integral real is an integer" '
                   '(C14_decode_encode_decode; built on soundness of the parser model for all inputs, C14_decoded_sound / '
@@ -701,7 +707,7 @@ MANIFEST = {
                   'escape letters, separator variants, alternative orders, depth limits, keyword / ID-separator / number shapes and the '
                   'encode shape are re-read from src/{writer,parser/mod,content,reader}.rs on every run; the model is tied to the crate '
                   'by differential runs.',
-    'level_note': 'Open known findings: C14-deep-nesting (operand containers nested deeper than MAX_BRACKET=100) and C14-real-overflow (a real '
+    'level_note': 'Open known findings: C14-deep-nesting (operand containers nested deeper than reader::MAX_NESTING = 16) and C14-real-overflow (a real '
                   'whose spelling overflows f32 is decoded to infinity and written as the operator inf). Fixed in this round: '
                   'C14-keyword-operator (93a8a25), C14-image-leading-space (aee7de5). Clause (2) is proved under the written-out float '
                   'assumptions canon_spec about f32 Display/FromStr (consistent by C14_canon_spec_consistent; validated on the crate by a '
